@@ -192,3 +192,20 @@ Proof.
   destruct found as [[]|]; cbn; split; intros H; auto; try discriminate;
     destruct H as [H|[H|H]]; discriminate.
 Qed.
+
+(* every result of every replayed job is among the previous results *)
+Lemma previous_results_complete {A} (jobs : list (option (list A))) res : previous_results jobs = Some res ->
+  forall l x, In (Some l) jobs -> In x l -> In x res.
+Proof.
+  revert res. induction jobs as [|j r IH]; intros res H l x Hj Hx; [destruct Hj|].
+  cbn in H. destruct j as [l0|]; [|discriminate]. destruct (previous_results r) as [t|] eqn:E; [|discriminate].
+  injection H as <-. apply in_or_app. destruct Hj as [Hj|Hj]; [injection Hj as ->; now left | right; eapply IH; eauto].
+Qed.
+Lemma previous_results_sound {A} (jobs : list (option (list A))) res : previous_results jobs = Some res ->
+  forall x, In x res -> exists l, In (Some l) jobs /\ In x l.
+Proof.
+  revert res. induction jobs as [|j r IH]; intros res H x Hx; cbn in H; [injection H as <-; destruct Hx|].
+  destruct j as [l0|]; [|discriminate]. destruct (previous_results r) as [t|] eqn:E; [|discriminate].
+  injection H as <-. apply in_app_or in Hx. destruct Hx as [Hx|Hx]; [exists l0; split; [now left | exact Hx]|].
+  destruct (IH t eq_refl x Hx) as [l [A1 A2]]. exists l. split; [now right | exact A2].
+Qed.
